@@ -16,5 +16,5 @@ echo "== demo WITH the change";    ( cd "$scratch/mut" && go test -vet=off -coun
 rm "$scratch/mut/$demo"
 for id in "$@"; do
   echo "== check $id against the change"
-  ( cd /verif && VERIF_REPO="$scratch/mut" ./bin/check $id --tier quick 2>&1 | grep -E "^(VIOLATION|KNOWN|CHECK-BROKEN|  scenario|C[0-9]+ quick)" | head -12 )
+  ( cd /verif && VERIF_REPO="$scratch/mut" ${CHECK_BIN:-./bin/check} $id --tier quick 2>&1 | grep -E "^(VIOLATION|KNOWN|CHECK-BROKEN|  scenario|C[0-9]+ quick)" | head -12 )
 done
